@@ -23,10 +23,30 @@
 //!   all: `PANIC <msg>`; ` # BADSPAN <what> <s> <e> len=<n>` appended for every span that is not
 //!        start <= end <= len on char boundaries; ` # EMPTYERRS` when Err carries no error;
 //!        ` # W <n>` number of warnings whose spans were checked (Y only).
+//!   rendering ("... so it can always be rendered"): EVERY error and warning a parser returned whose spans passed
+//!        the check above is pushed through `lrpar::diagnostics::SpannedDiagnosticFormatter` the way nimbleparse,
+//!        CTParserBuilder and CTLexerBuilder print it (`format_error` / `format_warning`, and `file_location_msg`
+//!        with its first span), under catch_unwind:
+//!        ` # R <tag> <idx> <spanskind E|D|?> <nspans> <start of the first span> <first line number printed by
+//!        format_*> <line> <col> (of file_location_msg) <length of the rendering>`  or
+//!        ` # RENDERPANIC <tag> <idx> <spanskind> <nspans> <message, blanks as _>`;
+//!        ` # RSKIP <tag> <idx>` for a diagnostic without spans or with a malformed span (reported as NOSPAN / BADSPAN:
+//!        outside the renderer's domain).
+//!        tag: e = error of the parser, w = warning, k/K = error of `YaccKind::try_from` as HeaderError<Span> /
+//!        converted to YaccGrammarError, s = SerialisationFormat, l = LexerKind, r = RecoveryKind (locations mapped
+//!        back to spans as nimbleparse does), f = LexFlags.
+//!   H with an `OK` result: the conversions of the parsed values, applied to EVERY entry of the section
+//!        (the conversion is a function of the value, whatever its key), in key order:
+//!        ` # YK x<keyhex> OK <G|E|N|U|O>` | ` # YK x<keyhex> ERR <n> {<s> <e>}*`   `YaccKind::try_from(&Value<Span>)`
+//!        ` # SF x<keyhex> OK <F|V>` | ` # SF x<keyhex> ERR <n> {<s> <e>}*`        `SerialisationFormat::try_from`
+//!        ` # LK …`, ` # RK …` (LexerKind, RecoveryKind: `OK` | `ERR <n> {<s> <e>}*`), ` # LF OK|ERR …` (LexFlags of the
+//!        whole section); ` # CONVPANIC <which> <msg>` when a conversion panics, ` # CONVNOLOC <which>` when its error
+//!        carries no location or one that is not a span.
 //!   (`HANG` is printed by the per-case watchdog of gvh::util::for_each_case.)
-use cfgrammar::header::{GrmtoolsSectionParser, HeaderErrorKind, Namespaced, Setting, Value};
-use cfgrammar::yacc::{ast::ASTWithValidityInfo, YaccGrammar};
-use cfgrammar::{Span, Spanned};
+use cfgrammar::header::{GrmtoolsSectionParser, HeaderError, HeaderErrorKind, HeaderValue, Namespaced, Setting, Value};
+use cfgrammar::yacc::{ast::ASTWithValidityInfo, parser::SpansKind, YaccGrammar, YaccGrammarError, YaccKind, YaccOriginalActionKind};
+use cfgrammar::{Location, Span, Spanned};
+use lrpar::diagnostics::{DiagnosticFormatter, SpannedDiagnosticFormatter};
 use gvh::common::*;
 use gvh::util::*;
 use lrlex::{DefaultLexerTypes, LRNonStreamingLexerDef, LexerDef};
@@ -110,6 +130,73 @@ fn badspans(o: &mut String, what: &str, src: &str, spans: &[Span]) {
     }
 }
 
+fn span_ok(src: &str, s: &Span) -> bool {
+    s.start() <= s.end() && s.end() <= src.len() && src.is_char_boundary(s.start()) && src.is_char_boundary(s.end())
+}
+
+fn sk_code(k: SpansKind) -> char {
+    match k {
+        SpansKind::Error => 'E',
+        SpansKind::DuplicationError => 'D',
+        #[allow(unreachable_patterns)]
+        _ => '?',
+    }
+}
+
+/// leading decimal number of a rendering (`<line>| <source line>` is its first row); `-` if there is none
+fn lead_num(s: &str) -> String {
+    let d: String = s.chars().take_while(|c| c.is_ascii_digit()).collect();
+    if d.is_empty() || !s[d.len()..].starts_with("| ") {
+        "-".to_string()
+    } else {
+        d
+    }
+}
+
+/// One ` # R …` / ` # RENDERPANIC …` record: `file_location_msg` with the first span and the rendering
+/// produced by `f` (format_error / format_warning), exactly as the tools print a diagnostic.
+fn render_with<F: FnOnce(&SpannedDiagnosticFormatter) -> String>(o: &mut String, src: &str, tag: char, idx: usize, sk: SpansKind, spans: &[Span], f: F) {
+    if spans.is_empty() || !spans.iter().all(|s| span_ok(src, s)) {
+        // reported as NOSPAN / BADSPAN by the span oracle: such a diagnostic is outside the renderer's domain
+        write!(o, " # RSKIP {} {}", tag, idx).unwrap();
+        return;
+    }
+    let first = spans[0];
+    let path = std::path::PathBuf::from("g.y");
+    let r = catch(std::panic::AssertUnwindSafe(|| {
+        let diag = SpannedDiagnosticFormatter::new(src, &path);
+        let loc = diag.file_location_msg("M", Some(first));
+        let text = f(&diag);
+        (loc, text)
+    }));
+    match r {
+        Ok((loc, text)) => {
+            let mut it = loc.rsplitn(3, ':');
+            let col = it.next().unwrap_or("-").to_string();
+            let line = it.next().unwrap_or("-").to_string();
+            let head_ok = it.next() == Some("M at g.y");
+            write!(o, " # R {} {} {} {} {} {} {} {} {}", tag, idx, sk_code(sk), spans.len(), first.start(), lead_num(&text),
+                   if head_ok { line } else { "-".to_string() }, col, text.len()).unwrap();
+        }
+        Err(m) => {
+            let m: String = m.chars().take(120).map(|c| if c.is_whitespace() || c == '#' { '_' } else { c }).collect();
+            write!(o, " # RENDERPANIC {} {} {} {} {}", tag, idx, sk_code(sk), spans.len(), m).unwrap();
+        }
+    }
+}
+
+fn render_error<E: Spanned + std::error::Error>(o: &mut String, src: &str, tag: char, idx: usize, e: E) {
+    let spans = e.spans().to_vec();
+    let sk = e.spanskind();
+    render_with(o, src, tag, idx, sk, &spans, move |d| d.format_error(e).to_string());
+}
+
+fn render_warning<W: Spanned + std::fmt::Display>(o: &mut String, src: &str, tag: char, idx: usize, w: W) {
+    let spans = w.spans().to_vec();
+    let sk = w.spanskind();
+    render_with(o, src, tag, idx, sk, &spans, move |d| d.format_warning(w));
+}
+
 fn errs_line<E: Spanned>(o: &mut String, src: &str, kinds: Vec<String>, errs: &[E]) {
     write!(o, "ERRS {}", errs.len()).unwrap();
     for (e, k) in errs.iter().zip(kinds) {
@@ -153,9 +240,111 @@ fn run_header(src: &str, required: bool) -> String {
         Err(errs) => {
             let kinds = errs.iter().map(|e| header_kind(&e.kind)).collect();
             errs_line(&mut o, src, kinds, &errs);
+            for (i, e) in errs.into_iter().enumerate() {
+                render_error(&mut o, src, 'e', i, e);
+            }
         }
     }
+    if o.starts_with("OK") {
+        conversions(&mut o, src);
+    }
     o
+}
+
+/// ` ERR <n> {<s> <e>}*` of a conversion error + its rendering(s); the locations must be spans of the text
+fn conv_err(o: &mut String, src: &str, which: &str, tag: char, idx: usize, e: HeaderError<Span>, also_yacc: bool) {
+    write!(o, " ERR {}", e.locations.len()).unwrap();
+    for s in &e.locations {
+        write!(o, " {} {}", s.start(), s.end()).unwrap();
+    }
+    if e.locations.is_empty() {
+        write!(o, " # CONVNOLOC {}", which).unwrap();
+    }
+    badspans(o, "conv", src, &e.locations);
+    if also_yacc {
+        // what ASTWithValidityInfo::from_str / YaccGrammar::from_str return for it
+        render_error(o, src, 'K', idx, YaccGrammarError::from(e.clone()));
+    }
+    render_error(o, src, tag, idx, e);
+}
+
+/// nimbleparse's way of printing a HeaderError<Location>: the locations must all be spans
+fn loc_err(o: &mut String, which: &str, e: HeaderError<Location>) -> HeaderError<Span> {
+    let mut spans = Vec::new();
+    for l in &e.locations {
+        match l {
+            Location::Span(s) => spans.push(*s),
+            _ => write!(o, " # CONVNOLOC {}", which).unwrap(),
+        }
+    }
+    HeaderError { kind: e.kind, locations: spans }
+}
+
+fn conversions(o: &mut String, src: &str) {
+    let parse = || GrmtoolsSectionParser::new(src, false).parse();
+    let Ok((hdr, _)) = parse() else { return };
+    let mut keys: Vec<String> = hdr.keys().cloned().collect();
+    keys.sort();
+    for (i, k) in keys.iter().enumerate() {
+        let HeaderValue(_, v) = hdr.get(k).unwrap();
+        write!(o, " # YK {}", xh(k)).unwrap();
+        match catch(std::panic::AssertUnwindSafe(|| YaccKind::try_from(v))) {
+            Ok(Ok(yk)) => write!(o, " OK {}", match yk {
+                YaccKind::Grmtools => "G",
+                YaccKind::Eco => "E",
+                YaccKind::Original(YaccOriginalActionKind::NoAction) => "N",
+                YaccKind::Original(YaccOriginalActionKind::UserAction) => "U",
+                YaccKind::Original(YaccOriginalActionKind::GenericParseTree) => "O",
+                #[allow(unreachable_patterns)]
+                _ => "?",
+            }).unwrap(),
+            Ok(Err(e)) => conv_err(o, src, "YaccKind", 'k', i, e, true),
+            Err(m) => write!(o, " # CONVPANIC YaccKind {}", m.replace(|c: char| c.is_whitespace() || c == '#', "_")).unwrap(),
+        }
+        write!(o, " # SF {}", xh(k)).unwrap();
+        match catch(std::panic::AssertUnwindSafe(|| lrpar::SerialisationFormat::try_from(v))) {
+            Ok(Ok(f)) => write!(o, " OK {}", match f {
+                lrpar::SerialisationFormat::FixedSizeInteger => "F",
+                lrpar::SerialisationFormat::VariableSizedInteger => "V",
+                #[allow(unreachable_patterns)]
+                _ => "?",
+            }).unwrap(),
+            Ok(Err(e)) => conv_err(o, src, "SerialisationFormat", 's', i, e, false),
+            Err(m) => write!(o, " # CONVPANIC SerialisationFormat {}", m.replace(|c: char| c.is_whitespace() || c == '#', "_")).unwrap(),
+        }
+        write!(o, " # LK {}", xh(k)).unwrap();
+        match catch(std::panic::AssertUnwindSafe(|| lrlex::LexerKind::try_from(v))) {
+            Ok(Ok(_)) => o.push_str(" OK"),
+            Ok(Err(e)) => conv_err(o, src, "LexerKind", 'l', i, e, false),
+            Err(m) => write!(o, " # CONVPANIC LexerKind {}", m.replace(|c: char| c.is_whitespace() || c == '#', "_")).unwrap(),
+        }
+    }
+    // LexFlags::try_from(&mut Header<Span>) on a copy of the section
+    if let Ok((mut h2, _)) = parse() {
+        o.push_str(" # LF");
+        match catch(std::panic::AssertUnwindSafe(|| lrlex::LexFlags::try_from(&mut h2))) {
+            Ok(Ok(_)) => o.push_str(" OK"),
+            Ok(Err(e)) => conv_err(o, src, "LexFlags", 'f', 0, e, false),
+            Err(m) => write!(o, " # CONVPANIC LexFlags {}", m.replace(|c: char| c.is_whitespace() || c == '#', "_")).unwrap(),
+        }
+    }
+    // RecoveryKind::try_from wants Value<Location> (nimbleparse / CTParserBuilder merge the section into a
+    // Header<Location>): owned values out of a further copy
+    if let Ok((mut h3, _)) = parse() {
+        for (i, k) in keys.iter().enumerate() {
+            let Some(hv) = h3.remove(k) else { continue };
+            let HeaderValue(_, v): HeaderValue<Location> = hv.into();
+            write!(o, " # RK {}", xh(k)).unwrap();
+            match catch(std::panic::AssertUnwindSafe(|| lrpar::RecoveryKind::try_from(&v))) {
+                Ok(Ok(_)) => o.push_str(" OK"),
+                Ok(Err(e)) => {
+                    let e = loc_err(o, "RecoveryKind", e);
+                    conv_err(o, src, "RecoveryKind", 'r', i, e, false)
+                }
+                Err(m) => write!(o, " # CONVPANIC RecoveryKind {}", m.replace(|c: char| c.is_whitespace() || c == '#', "_")).unwrap(),
+            }
+        }
+    }
 }
 
 fn run_yacc(src: &str, kind: &str) -> String {
@@ -167,6 +356,9 @@ fn run_yacc(src: &str, kind: &str) -> String {
             Err(errs) => {
                 let kinds = errs.iter().map(debug_kind).collect();
                 errs_line(&mut o, src, kinds, &errs);
+                for (i, e) in errs.into_iter().enumerate() {
+                    render_error(&mut o, src, 'e', i, e);
+                }
                 return o;
             }
         }
@@ -196,6 +388,14 @@ fn run_yacc(src: &str, kind: &str) -> String {
     for w in &warns {
         badspans(&mut o, "warn", src, w.spans());
     }
+    if let Err(errs) = &res {
+        for (i, e) in errs.iter().enumerate() {
+            render_error(&mut o, src, 'e', i, e.clone());
+        }
+    }
+    for (i, w) in warns.into_iter().enumerate() {
+        render_warning(&mut o, src, 'w', i, w);
+    }
     o
 }
 
@@ -212,6 +412,9 @@ fn run_yacc_direct(src: &str, kind: &str) -> String {
         Err(errs) => {
             let kinds = errs.iter().map(debug_kind).collect();
             errs_line(&mut o, src, kinds, errs);
+            for (i, e) in errs.iter().enumerate() {
+                render_error(&mut o, src, 'e', i, e.clone());
+            }
         }
     }
     o
@@ -245,6 +448,9 @@ fn run_lex(src: &str, with_options: bool) -> String {
                     }
                     write!(o, " # HDRPOS {} {}", pos, if t.is_empty() { "RELOK" } else { "RELBAD" }).unwrap();
                 }
+            }
+            for (i, e) in errs.into_iter().enumerate() {
+                render_error(&mut o, src, 'e', i, e);
             }
         }
     }
